@@ -9,7 +9,12 @@ Tie (B), differential, trace level:
   * names: generated derivations with confusable names; the string, the derivation (as an EvalSpec.expr term) and the collections
     the implementation reported go to Coq, which checks  lex (strip s) = render e  (the hypothesis of C10_names_exact), the tree
     and  enames e = scan_names (tokens) = reported.
-Oracle (independent of the model): outcome of the n-th call == outcome of the same call on a freshly constructed parser;
+  * evaluations that reuse the same scope dict objects with in-place edits between them (Coq: the scope of each call is the
+    content of the dicts at that moment), and histories that interleave the parser's consumers (get_used_vars, DependentSampler,
+    Formula/Numerical/SumGrader with instructor variables, white/blacklists) with direct calls: after every consumer call every
+    string seen so far is parsed and evaluated again (Coq checks those direct calls against the stateless description).
+Oracle (independent of the model): outcome of the n-th call == outcome of the same call on a freshly constructed parser
+(given new dicts of equal content); a grader's verdict on a string does not depend on the author's answer being that string;
 objects handed out earlier still report what they reported; reported collections == the name sets known by construction of
 the derivation (parse(s).*_used, evaluator(s, ...)[1], get_used_vars, DependentSampler's inferred depends).
 """
@@ -33,7 +38,9 @@ MIRRORED = [(_EXPR, 'MathParser.__init__'), (_EXPR, 'MathParser.reset_storage'),
             (_EXPR, 'MathExpression.__init__'), (_EXPR, 'MathExpression.check_scope'), (_EXPR, 'MathExpression.eval'),
             (_EXPR, 'PARSER'), (_EXPR, 'parse'), (_EXPR, 'evaluator'),
             ('mitxgraders/helpers/math_helpers.py', 'MathMixin.get_used_vars'),
-            ('mitxgraders/sampling.py', 'DependentSampler.__init__')]
+            ('mitxgraders/sampling.py', 'DependentSampler.__init__'),
+            ('mitxgraders/formulagrader/integralgrader.py', 'SummationGraderBase.get_limits_and_funcs'),
+            ('mitxgraders/formulagrader/formulagrader.py', 'FormulaGrader.gen_evaluations')]
 REFUTED = []
 TRUSTED = [
     'correspondence harness harness/props/c10.py: observation of outcomes, cache and scratch collections after every call; '
@@ -134,8 +141,11 @@ def val_term(o):
 # =================================================================================================
 # the scope of evaluating calls (exact semantics on both sides)
 # =================================================================================================
-VARS = {'x': 2.0, 'y': 3.0, 'f': 5.0, "x'": 7.0, 'y_1': 2.0, 'xy': 11.0, 'a_{1}': 4.0}
+VARS = {'x': 2.0, 'y': 3.0, 'f': 5.0, "x'": 7.0, 'y_1': 2.0, 'xy': 11.0, 'a_{1}': 4.0, 'u': 1.5, 'n': 3.0, 'c': 2.0}
 SUFS = {'k': 1000.0, 'e': 4.0, '%': 0.5}
+# names that an in-place edit of a reused scope dict may add
+VARS_ALL = dict(VARS, z=6.0, leak=1.0)
+SUFS_ALL = dict(SUFS, M=1000000.0)
 
 
 def _f(a):
@@ -146,17 +156,31 @@ def _g(a, b):
     return a * b
 
 
+def _h(a):
+    return a + 1
+
+
 FUNCS = {'f': _f, 'g': _g}
+FUNCS_ALL = dict(FUNCS, h=_h)
 
 ENV_COQ = ('Definition fenv0 (n : str) : option (list val -> res val) :=\n'
-           '  if str_eqb n %s then Some (fun a => match a with [VS c] => chk (cadd c cone) | [VA _] => Err EUnsupported '
-           '| _ => Err (EFunc 0) end)\n'
+           '  if str_eqb n %s || str_eqb n %s then Some (fun a => match a with [VS c] => chk (cadd c cone) '
+           '| [VA _] => Err EUnsupported | _ => Err (EFunc 0) end)\n'
            '  else if str_eqb n %s then Some (fun a => match a with [VS c; VS d] => chk (cmul c d) | [_; _] => Err EUnsupported '
            '| _ => Err (EFunc 0) end)\n'
-           '  else None.\n' % (strl('f'), strl('g')) +
-           'Definition env0 : env := mkEnv (assoc [%s]) fenv0 (assoc [%s]).\n' % (
-               '; '.join('(%s, VS (mkC %s 0))' % (strl(n), ql(v)) for n, v in sorted(VARS.items())),
-               '; '.join('(%s, %s)' % (strl(n), ql(v)) for n, v in sorted(SUFS.items()))))
+           '  else None.\n' % (strl('f'), strl('h'), strl('g')) +
+           'Definition vars_all : list (str * val) := [%s].\n' % '; '.join(
+               '(%s, VS (mkC %s 0))' % (strl(n), ql(v)) for n, v in sorted(VARS_ALL.items())) +
+           'Definition sufs_all : list (str * Q) := [%s].\n' % '; '.join(
+               '(%s, %s)' % (strl(n), ql(v)) for n, v in sorted(SUFS_ALL.items())) +
+           '(* a scope = the names currently in the three dicts *)\n'
+           'Definition env_sub (vs fs ss : list str) : env :=\n'
+           '  mkEnv (fun n => if memb n vs then assoc vars_all n else None)\n'
+           '        (fun n => if memb n fs then fenv0 n else None)\n'
+           '        (fun n => if memb n ss then assoc sufs_all n else None).\n'
+           'Definition env0 : env := env_sub [%s] [%s] [%s].\n' % (
+               '; '.join(strl(n) for n in sorted(VARS)), '; '.join(strl(n) for n in sorted(FUNCS)),
+               '; '.join(strl(n) for n in sorted(SUFS))))
 
 
 # =================================================================================================
@@ -225,11 +249,25 @@ def exc_outcome(e):
     return ('exc', type(e).__name__, str(e))
 
 
-def do_call(call, handed):
-    """call = (kind, s, max_dim).  Returns (obs for Coq, outcome for the fresh-vs-shared oracle)."""
+def scope_content(scope):
+    return (tuple(sorted(scope[0])), tuple(sorted(scope[1])), tuple(sorted(scope[2])))
+
+
+def do_call(call, handed, scope=None):
+    """call = (kind, s, max_dim[, content]).  Returns (obs for Coq, outcome for the fresh-vs-shared oracle).
+    kind 'evalC' evaluates in the scope given by its content (names of the three dicts): in the dict objects `scope` that a
+    history reuses and edits in place, or -- for the fresh reference -- in new dicts of equal content."""
     I = impl()
     ex, PR = I['ex'], I['ParseResults']
-    kind, s, md = call
+    kind, s, md = call[0], call[1], call[2]
+    V, F, S = VARS, FUNCS, SUFS
+    if kind == 'evalC':
+        if scope is not None:
+            V, F, S = scope
+        else:
+            V = dict((n, VARS_ALL[n]) for n in call[3][0])
+            F = dict((n, FUNCS_ALL[n]) for n in call[3][1])
+            S = dict((n, SUFS_ALL[n]) for n in call[3][2])
     if kind == 'parse':
         st, r = core.guarded(ex.parse, s, seconds=PATIENCE[0])
         if st == 'ret':
@@ -243,7 +281,7 @@ def do_call(call, handed):
         if st == 'exc':
             return exc_obs(r), exc_outcome(r)
         return ('other', 'timeout'), ('timeout',)
-    st, r = core.guarded(ex.evaluator, s, VARS, FUNCS, SUFS, max_array_dim=md, seconds=PATIENCE[0])
+    st, r = core.guarded(ex.evaluator, s, V, F, S, max_array_dim=md, seconds=PATIENCE[0])
     if st == 'ret':
         try:
             v, meta = r
@@ -267,19 +305,117 @@ def observe_state(P):
     return (entries, scratch)
 
 
+# ---- the parser's consumers (anchor list of the property), called between direct calls on the shared parser ----
+SUM_ANSWER = {'lower': '1', 'upper': 'sqrt(16)', 'summand': 'n^2 + u', 'summation_variable': 'n'}
+CONSUMERS = {
+    # id: (strings whose parse the consumer touches, inputs)
+    'used_vars': (None, [('f(x)+2k*f', '[y,2e]'), ('n^2 + u', None, 'c*x'), ('x+y', '  ', ' x + y ')]),
+    'depends': (None, ['f(x)+2k*f', 'n^2 + u', "x'^-y_1", 'c*x']),
+    'fg_instructor:c*x': (['c*x'], ['c*x', 'x*c', ' c * x', '2*x']),
+    'fg_instructor:x*c': (['x*c'], ['c*x', 'x*c', ' c * x', '2*x']),
+    'numerical': (['2*pi'], ['2*pi', '6.283185307', 'pi*2']),
+    'sum': (['1', 'sqrt(16)', 'n^2 + u'], [('1', 'sqrt(16)', 'n^2 + u', 'n'), ('1', '4', 'u + n*n', 'n'),
+                                            ('1', 'sqrt(16)', 'u+n^2', 'n'), ('0+1', '2^2', 'n^2 + u', 'n')]),
+    'fg_whitelist_none': (['u + n*n'], ['u + n*n', 'n^2 + u', 'u+n*n+sin(0)']),
+    'fg_whitelist_sin': (['x+1'], ['x+1', 'x+cos(0)', 'x+1+cos-cos', 'x+sin(0)+1', 'cos(0)+x+cos-cos']),
+    'fg_blacklist_cos': (['x+1'], ['x+1', 'x+cos(0)', 'x+sin(0)+1']),
+}
+TWINS = {'fg_instructor:c*x': 'fg_instructor:x*c', 'fg_instructor:x*c': 'fg_instructor:c*x'}
+
+
+def consumer_strings(cid, inp):
+    own, _ = CONSUMERS[cid]
+    out = list(own or [])
+    for x in (inp if isinstance(inp, tuple) else (inp,)):
+        if isinstance(x, str) and x.strip() and x not in ('n',):
+            out.append(x)
+    return out
+
+
+def call_consumer(cid, inp):
+    import mitxgraders as mg
+    from mitxgraders.helpers.math_helpers import MathMixin
+    if cid == 'used_vars':
+        return sorted(MathMixin.get_used_vars(list(inp)))
+    if cid == 'depends':
+        return sorted(mg.DependentSampler(formula=inp).config['depends'])
+    if cid.startswith('fg_instructor:'):
+        g = mg.FormulaGrader(answers=cid.split(':', 1)[1], variables=['x', 'c'], instructor_vars=['c'],
+                             sample_from={'c': [2, 3]})
+        return g(None, inp)
+    if cid == 'numerical':
+        return mg.NumericalGrader(answers='2*pi')(None, inp)
+    if cid == 'sum':
+        return mg.SumGrader(answers=dict(SUM_ANSWER), variables=['u'])(None, list(inp))
+    if cid == 'fg_whitelist_none':
+        return mg.FormulaGrader(answers='u + n*n', variables=['u', 'n'], whitelist=[None])(None, inp)
+    if cid == 'fg_whitelist_sin':
+        return mg.FormulaGrader(answers='x+1', variables=['x', 'cos'], whitelist=['sin'])(None, inp)
+    if cid == 'fg_blacklist_cos':
+        return mg.FormulaGrader(answers='x+1', variables=['x'], blacklist=['cos'])(None, inp)
+    raise ValueError(cid)
+
+
 def run_sequence(calls):
-    """One history on a freshly constructed shared parser.  Returns per call (obs, outcome, state) and a final stability flag."""
+    """One history on a freshly constructed shared parser.
+    Steps:  ('parse', s, None) / ('eval', s, max_dim)      direct calls with the standard scope (new dict objects every time)
+            ('evalS', s, max_dim)                          evaluator with the three scope dict OBJECTS this history reuses
+            ('edit', 'v'|'f'|'s', name)                    in-place edit of one of them (delete the name if present, else add)
+            ('evalC', s, max_dim, content)                 evaluator with new dicts of the given content (the fresh reference)
+            ('consumer', id, input)                        one of CONSUMERS; afterwards every string this history has seen so
+                                                           far is parsed and evaluated again directly ("re-check")
+    Returns per executed call (obs, outcome, state, effective call, index of the step that caused it) and a final stability
+    flag for the objects handed out.  Histories with consumer steps do not report the cache (the model has no consumers)."""
     ex = impl()['ex']
     P = ex.MathParser()
     ex.PARSER = P
     handed, out = [], []
-    for call in calls:
-        obs, outcome = do_call(call, handed)
-        try:
-            state = observe_state(ex.PARSER)
-        except Exception as e:      # noqa
-            state = ('unobservable', repr(e))
-        out.append((obs, outcome, state))
+    scope = (dict(VARS), dict(FUNCS), dict(SUFS))
+    universe = (VARS_ALL, FUNCS_ALL, SUFS_ALL)
+    with_consumers = any(c[0] == 'consumer' for c in calls)
+    seen = []
+
+    def direct(eff, j, sc=None):
+        obs, outcome = do_call(eff, handed, sc)
+        if with_consumers:
+            state = ('skip',)
+        else:
+            try:
+                state = observe_state(ex.PARSER)
+            except Exception as e:      # noqa
+                state = ('unobservable', repr(e))
+        out.append((obs, outcome, state, eff, j))
+
+    for j, call in enumerate(calls):
+        if call[0] == 'edit':
+            i = 'vfs'.index(call[1])
+            if call[2] in scope[i]:
+                del scope[i][call[2]]
+            else:
+                scope[i][call[2]] = universe[i][call[2]]
+            continue
+        if call[0] == 'consumer':
+            st, r = core.guarded(call_consumer, call[1], call[2], seconds=max(60, PATIENCE[0]))
+            if st == 'ret':
+                outcome = ('ret', repr(r))
+            elif st == 'exc':
+                outcome = exc_outcome(r)
+            else:
+                outcome = ('timeout',)
+            out.append((('consumer',), outcome, ('skip',), call, j))
+            for t in consumer_strings(call[1], call[2]):
+                if t not in seen:
+                    seen.append(t)
+            for t in seen[-8:]:
+                direct(('parse', t, None), j)
+                direct(('eval', t, None), j)
+            continue
+        if call[1] is not None and call[1] not in seen:
+            seen.append(call[1])
+        eff = call
+        if call[0] == 'evalS':
+            eff = ('evalC', call[1], call[2], scope_content(scope))
+        direct(eff, j, scope if call[0] == 'evalS' else None)
     changed = None
     for i, (obj, nm) in enumerate(handed):
         try:
@@ -317,7 +453,7 @@ def _worker(seqs):
     return res
 
 
-def run_many(seqs, nproc=core.NPROC):
+def run_many(seqs, nproc=core.NPROC, retry=True):
     """run the sequences (lists of calls) in forked workers; result order = input order"""
     if len(seqs) < 64:
         return _worker(seqs)
@@ -344,10 +480,35 @@ def run_many(seqs, nproc=core.NPROC):
     return results
 
 
+def engine_unstable(out):
+    """a call for which the interpreter's recursion limit was hit in one context (this history / a fresh parser) but not in the
+    other: the nesting is near the limit and the outcome depends on the depth of the caller's stack, which is neither parse
+    history nor anything the property speaks about"""
+    for o in out:
+        want = fresh_outcome(o[3])
+        if (o[1][:2] == ('exc', 'RecursionError')) != (want[:2] == ('exc', 'RecursionError')):
+            return True
+    return False
+
+
 def drop_unobserved(seqs, results, stats):
+    """drops the sequences that could not be observed and replaces every sequence by its effective calls"""
     keep = [i for i, r in enumerate(results) if r is not None]
+    todo = sorted(set(o[3] for i in keep for o in results[i][0] if o[3] not in _FRESH), key=repr)
+    if len(todo) > 64:          # each distinct call once on a parser constructed for it alone, in the worker pool
+        for c, r in zip(todo, run_many([[c] for c in todo], retry=False)):
+            if r is not None:
+                _FRESH[c] = r[0][0][1]
+    stable = [i for i in keep if not engine_unstable(results[i][0])]
+    stats['sequences_near_the_recursion_limit_dropped'] = stats.get('sequences_near_the_recursion_limit_dropped', 0) + len(keep) - len(stable)
+    keep = stable
     stats['sequences_not_observed_within_300s'] = stats.get('sequences_not_observed_within_300s', 0) + len(results) - len(keep)
-    return [seqs[i] for i in keep], [results[i] for i in keep]
+    ORIG.clear()
+    ORIG.extend(seqs[i] for i in keep)
+    return [[o[3] for o in results[i][0]] for i in keep], [results[i] for i in keep]
+
+
+ORIG = []        # the sequences as generated (with edits / evalS), parallel to the last result of drop_unobserved
 
 
 # =================================================================================================
@@ -419,7 +580,7 @@ Inductive iview :=
 | IDims
 | IErr (e : everr)
 | IOther.
-Inductive istate := IState (entries : list (str * names)) (scr : names) | IUnobservable.
+Inductive istate := IState (entries : list (str * names)) (scr : names) | IUnobservable | ISkip.
 (* 0 agree, 1 differ, 3 the model declines (value outside its arithmetic) *)
 Definition view_agree (v : view) (i : iview) : Z :=
   match v, i with
@@ -444,6 +605,7 @@ Definition state_agree (st : pstate) (i : istate) : bool :=
   match i with
   | IState l scr => entries_agree (cache st) st l && names_same (scratch st) scr
   | IUnobservable => false
+  | ISkip => true          (* histories with consumer calls: the cache is not modelled *)
   end.
 Definition junk0 (s : str) : names := no_names.
 '''
@@ -473,10 +635,12 @@ Eval vm_compute in (verif_codes verif_cases 0).
 
 
 def call_term(call):
-    kind, s, md = call
+    kind, s, md = call[0], call[1], call[2]
     if kind == 'parse':
         return '(OParse %s)' % strl(s)
-    return '(OEval env0 %s %s)' % ('None' if md is None else '(Some %d%%nat)' % md,
+    lst = lambda xs: '[' + ';'.join(strl(x) for x in xs) + ']'      # noqa
+    envt = 'env0' if kind == 'eval' else '(env_sub %s %s %s)' % tuple(lst(x) for x in call[3])
+    return '(OEval %s %s %s)' % (envt, 'None' if md is None else '(Some %d%%nat)' % md,
                                    'None' if s is None else '(Some %s)' % strl(s))
 
 
@@ -504,6 +668,8 @@ def view_term(o):
 def state_term(s):
     if s[0] == 'unobservable':
         return 'IUnobservable'
+    if s[0] == 'skip':
+        return 'ISkip'
     entries, scratch = s
     return '(IState [%s] %s)' % ('; '.join('(%s, %s)' % (strl(k), namesl(*nm)) for k, nm in entries), namesl(*scratch))
 
@@ -527,12 +693,13 @@ def eval_histories(tag, seqs, results, shard, on_codes):
         calls, views, states = Table(), Table(), Table()
         cases = []
         for sq, (out, _chg) in zip(seqs[k:k + shard], results[k:k + shard]):
-            steps = ['(%d%%nat, %d%%nat, %d%%nat)' % (calls.id(c), views.id(o[0]), states.id(o[2])) for c, o in zip(sq, out)]
+            steps = ['(%d%%nat, %d%%nat, %d%%nat)' % (calls.id(c), views.id(o[0]), states.id(o[2])) for c, o in zip(sq, out)
+                     if c[0] != 'consumer']
             cases.append('[' + '; '.join(steps) + ']')
         keys = []
         for c in calls.items:
-            if fresh_outcome(c)[:2] == ('exc', 'RecursionError') and c[1] is not None:
-                k0 = (c[1].strip() if c[0] == 'eval' else c[1]).replace(' ', '')
+            if c[0] != 'consumer' and fresh_outcome(c)[:2] == ('exc', 'RecursionError') and c[1] is not None:
+                k0 = (c[1].strip() if c[0] != 'parse' else c[1]).replace(' ', '')
                 if k0 not in keys:
                     keys.append(k0)
         text = (HEADER + ENV_COQ +
@@ -589,17 +756,42 @@ DEFER = Deferred()
 # histories: generation, oracle, correspondence
 # =================================================================================================
 def show_call(c):
-    return '%s(%r%s)' % ('parse' if c[0] == 'parse' else 'evaluator', c[1] if c[1] is None or len(c[1]) < 120 else c[1][:40] + '...' + c[1][-8:], '' if c[2] is None else ', max_array_dim=%d' % c[2])
+    if c[0] == 'consumer':
+        return '%s(%r)' % (c[1], c[2])
+    if c[0] == 'edit':
+        return 'in-place edit of the reused %s dict: delete/add %r' % ({'v': 'variables', 'f': 'functions', 's': 'suffixes'}[c[1]], c[2])
+    text = c[1] if c[1] is None or len(c[1]) < 120 else c[1][:40] + '...' + c[1][-8:]
+    extra = '' if c[2] is None else ', max_array_dim=%d' % c[2]
+    if c[0] == 'evalS':
+        extra += ', <the reused scope dicts>'
+    if c[0] == 'evalC':
+        extra += ', scope=%r' % (c[3],)
+    return '%s(%r%s)' % ('parse' if c[0] == 'parse' else 'evaluator', text, extra)
+
+
+def original_prefix(orig, j):
+    """the steps as generated (with edits, evalS, consumers) up to and including step j"""
+    return orig[:j + 1]
 
 
 def check_histories(res, seqs, results, stats):
     """the fresh-vs-shared oracle on every call of every history"""
-    todo = sorted(set(c for sq in seqs for c in sq if c not in _FRESH), key=repr)
-    if len(todo) > 64:          # each distinct call once on a parser constructed for it alone, in the worker pool
-        for c, r in zip(todo, run_many([[c] for c in todo])):
-            if r is not None:
-                _FRESH[c] = r[0][0][1]
-    for sq, (out, changed) in zip(seqs, results):
+    # a grader's verdict on an input must not depend on whether the author's answer happens to be spelled like the input
+    # (= whether that very string was evaluated just before, inside the grader)
+    for c in sorted(set(c for sq in seqs for c in sq if c[0] == 'consumer' and c[1] in TWINS), key=repr):
+        if ('twin', c) in _FRESH:
+            continue
+        _FRESH[('twin', c)] = True
+        twin = ('consumer', TWINS[c[1]], c[2])
+        a, b = fresh_outcome(c), fresh_outcome(twin)
+        res.oracle_evals += 1
+        if a != b and ('timeout',) not in (a, b):
+            res.witnesses.append({'key': 'twin:%s' % show_call(c), 'kind': 'history', 'calls': [list(c)], 'twin': list(twin),
+                                  'what': '%s gives %r but %s gives %r: the outcome for the student string depends on whether the '
+                                          'author\'s answer is the same string (evaluated just before through the shared parser)'
+                                          % (show_call(c), a, show_call(twin), b)})
+    origs = list(ORIG) if len(ORIG) == len(seqs) else seqs
+    for sq, (out, changed), orig in zip(seqs, results, origs):
         for i, (call, o) in enumerate(zip(sq, out)):
             res.oracle_evals += 1
             want = fresh_outcome(call)
@@ -608,19 +800,73 @@ def check_histories(res, seqs, results, stats):
                 break
             if got != want:
                 res.witnesses.append({
-                    'key': 'history:%s' % '|'.join(show_call(c) for c in sq[:i + 1]), 'kind': 'history',
-                    'calls': [list(c) for c in sq[:i + 1]],
+                    'key': 'history:%s' % '|'.join(show_call(c) for c in original_prefix(orig, o[4])), 'kind': 'history',
+                    'calls': [list(c) for c in original_prefix(orig, o[4])] + ([list(call)] if orig[o[4]][0] == 'consumer' and call[0] != 'consumer' else []),
                     'what': 'call #%d %s after this history gives %r; on a freshly constructed parser it gives %r'
                             % (i + 1, show_call(call), got, want)})
                 break
             stats['outcomes'][got[0] if got[0] != 'exc' else 'exc:' + got[1]] += 1
         if changed is not None:
             res.witnesses.append({
-                'key': 'handed-out:%s' % '|'.join(show_call(c) for c in sq), 'kind': 'handed-out',
-                'calls': [list(c) for c in sq],
+                'key': 'handed-out:%s' % '|'.join(show_call(c) for c in orig), 'kind': 'handed-out',
+                'calls': [list(c) for c in orig],
                 'what': 'the object returned by successful parse #%d reported %r when returned and %r after the later calls'
                         % (changed[0] + 1, changed[1], changed[2])})
         stats['sequences'] += 1
+
+
+# strings and, per string, names whose presence in the scope matters (variables, functions, suffixes) plus one that does not
+SCOPE_EDITS = [
+    ('x+y', [('v', 'x'), ('v', 'y'), ('v', 'z'), ('s', 'k')]),
+    ('f(x)+2k*f', [('v', 'f'), ('f', 'f'), ('s', 'k'), ('v', 'x'), ('f', 'h')]),
+    ('[y,2e]', [('v', 'y'), ('s', 'e'), ('s', 'M')]),
+    ('g(a_{1},1e1e)', [('f', 'g'), ('v', 'a_{1}'), ('s', 'e')]),
+    ('h(z)*2M', [('f', 'h'), ('v', 'z'), ('s', 'M')]),          # needs names the initial scope lacks
+]
+
+
+def scope_edit_histories():
+    """evaluations that reuse the same scope dict objects, with in-place edits between them"""
+    out = []
+    for s, names in SCOPE_EDITS:
+        for which, nm in names:
+            e = ('edit', which, nm)
+            ev = ('evalS', s, None)
+            out += [[ev, e, ev], [ev, e, ev, e, ev], [e, ev, e, ev], [('parse', s, None), e, ev, e, ev],
+                    [ev, e, ('parse', s, None), ev], [('eval', s, None), ev, e, ev, ('eval', s, None)],
+                    [ev, e, ('evalS', ' ' + s.replace('+', ' + '), None), e, ('evalS', s, 0)]]
+        # two edits at once
+        if len(names) >= 2:
+            e1, e2 = ('edit',) + names[0], ('edit',) + names[1]
+            ev = ('evalS', s, None)
+            out += [[ev, e1, e2, ev, e1, ev, e2, ev]]
+    return out
+
+
+def consumer_histories(ctx, rng):
+    """direct parse / evaluate calls interleaved with the parser's consumers; every consumer call is followed by a re-check of
+    every string the history has seen"""
+    direct_strings = ['n^2 + u', 'u + n*n', 'c*x', 'x*c', 'sqrt(16)', '2*pi', 'x+1', 'f(x)+2k*f', '[y,2e]', 'x+y', 'f(x,)', '(x']
+    all_calls = [('consumer', cid, inp) for cid in sorted(CONSUMERS) for inp in CONSUMERS[cid][1]]
+    seqs = [[c] for c in all_calls]
+    for c in all_calls:                          # the strings a consumer touches, parsed / evaluated before and after it
+        strs = consumer_strings(c[1], c[2])[:2]
+        seqs.append([('parse', t, None) for t in strs] + [c])
+        seqs.append([('eval', strs[0], None), c, c])
+    n = 30 if ctx['tier'] == 'quick' else 600
+    if ctx['escalate'] and ctx['tier'] == 'quick':
+        n = 120
+    for _ in range(n):
+        sq = []
+        for _ in range(rng.randint(3, 6)):
+            if rng.random() < 0.5:
+                sq.append(rng.choice(all_calls))
+            else:
+                sq.append((rng.choice(['parse', 'eval']), rng.choice(direct_strings), None))
+        if not any(c[0] == 'consumer' for c in sq):
+            sq.append(rng.choice(all_calls))
+        seqs.append(sq)
+    return seqs
 
 
 def histories(ctx, res, rng, stats):
@@ -639,6 +885,11 @@ def histories(ctx, res, rng, stats):
         # every quadruple of strings, the parse/evaluate pattern drawn per quadruple
         for t in itertools.product(ALPHABET, repeat=4):
             seqs.append([(rng.choice(['parse', 'eval']), s, None) for s in t])
+    seqs += scope_edit_histories()
+    stats['scope_edit_sequences'] = len(scope_edit_histories())
+    cons = consumer_histories(ctx, rng)
+    stats['consumer_sequences'] = len(cons)
+    seqs += cons
     results = run_many(seqs)
     seqs, results = drop_unobserved(seqs, results, stats)
     check_histories(res, seqs, results, stats)
@@ -1090,14 +1341,17 @@ def random_histories(ctx, res, rng, stats, rendered):
     seqs = []
     for _ in range(n):
         pool = [rng.choice(base) for _ in range(rng.randint(2, 5))]
+        shallow = [q for q in pool if len(q) < 200] or ['x']
+        pool += [mutate(rng, rng.choice(shallow)) for _ in range(rng.randint(1, 3))]
+        pool += [p.replace(' ', '') if rng.random() < 0.5 else ' ' + p.replace('+', ' + ') for p in pool[:2]]
         if rng.random() < 0.12:
-            # an input on which the engine gives up, after a name, a suffix or a function head has fired
+            # an input on which the engine gives up, after a name, a suffix or a function head has fired.  It is added after
+            # the mutants were drawn: a stray character deep inside would stop the descent at a depth near the interpreter's
+            # limit, where the outcome depends on how deep the CALLER's stack is -- not a matter of parse history
             depth = rng.randint(300, 500)
             op, cl = rng.choice([('(', ')'), ('[', ']'), ('g(', ')')])
             pool.append('%s%s%s%s%s%s' % (gen_name(rng), rng.choice(['+', '*', '-']), rng.choice(['2k', '3%', '1e1e', 'f(x)']),
                                           rng.choice(['*', '+', '^']), op * depth + rng.choice(['1', 'y', '2e']), cl * depth))
-        pool += [mutate(rng, rng.choice(pool)) for _ in range(rng.randint(1, 3))]
-        pool += [p.replace(' ', '') if rng.random() < 0.5 else ' ' + p.replace('+', ' + ') for p in pool[:2]]
         sq = []
         for _ in range(rng.randint(5, 12)):
             s = rng.choice(pool)
@@ -1110,6 +1364,13 @@ def random_histories(ctx, res, rng, stats, rendered):
                 sq.append(('eval', s, rng.choice([0, 1])))
             else:
                 sq.append(('eval', None, None))
+        if rng.random() < 0.35:
+            # the evaluations of this history reuse the same scope dict objects, edited in place now and then
+            sq = [('evalS', c[1], c[2]) if c[0] == 'eval' and c[1] is not None else c for c in sq]
+            for _ in range(rng.randint(1, 4)):
+                which = rng.choice('vvfs')
+                nm = rng.choice(sorted({'v': VARS_ALL, 'f': FUNCS_ALL, 's': SUFS_ALL}[which]))
+                sq.insert(rng.randrange(1, len(sq) + 1), ('edit', which, nm))
         seqs.append(sq)
     results = run_many(seqs)
     seqs, results = drop_unobserved(seqs, results, stats)
@@ -1225,6 +1486,7 @@ def run(ctx):
                              'all %d^3 string triples with a drawn parse/evaluate pattern' % len(ALPHABET)) +
                             ('; all %d^4 string quadruples with a drawn pattern each' % len(ALPHABET) if ctx['tier'] == 'thorough' else ''),
         'sequences_not_observed_within_300s': stats.get('sequences_not_observed_within_300s', 0),
+        'sequences_near_the_recursion_limit_dropped': stats.get('sequences_near_the_recursion_limit_dropped', 0),
         'alphabet': [a if len(a) < 60 else a[:14] + '...(%d levels)...' % NEST + a[-4:] for a in ALPHABET], 'calls_in_alphabet': len(alphabet_calls()) + len(EXTRA_CALLS),
         'random_sequences': stats.get('random_sequences'), 'random_calls': stats.get('random_calls'),
         'outcome_kinds': dict(stats['outcomes']),
@@ -1232,6 +1494,9 @@ def run(ctx):
         'names_metadata_via_evaluator': stats['names_evaluated'],
         'names_sizes_top': dict(('%d vars/%d funcs/%d suffixes' % k, v) for k, v in stats['names_sizes'].most_common(8)),
         'consumer_checks': stats.get('consumer_checks'),
+        'histories_reusing_scope_dicts_with_in_place_edits': stats.get('scope_edit_sequences'),
+        'histories_interleaving_consumers_with_recheck': stats.get('consumer_sequences'),
+        'consumers': sorted(CONSUMERS),
         'sequences_where_the_model_declines_a_value': stats.get('model_declined_sequences', 0),
     }
     return res
@@ -1244,17 +1509,25 @@ def replay(w):
     PATIENCE[0] = 300
     try:
         if kind in ('history', 'handed-out'):
-            calls = [tuple(c) for c in w['calls']]
+            calls = [tuple(tuple(tuple(y) if isinstance(y, list) else y for y in x) if isinstance(x, list) else x for x in c)
+                     for c in w['calls']]
             out, changed = run_sequence(calls)
             if kind == 'handed-out':
                 return changed is not None, 'objects handed out during %s: %s' % (
                     [show_call(c) for c in calls], 'changed afterwards: %r' % (changed,) if changed else 'unchanged')
-            last = calls[-1]
-            _FRESH.pop(last, None)
-            want = fresh_outcome(last)
-            got = out[-1][1]
-            return got != want, 'after %s: %s gives %r; freshly constructed parser gives %r' % (
-                [show_call(c) for c in calls[:-1]], show_call(last), got, want)
+            if w.get('twin'):
+                twin = tuple(tuple(x) if isinstance(x, list) else x for x in w['twin'])
+                _FRESH.pop(calls[0], None)
+                _FRESH.pop(twin, None)
+                a, b = fresh_outcome(calls[0]), fresh_outcome(twin)
+                return a != b, '%s gives %r; %s gives %r' % (show_call(calls[0]), a, show_call(twin), b)
+            for o in out:
+                _FRESH.pop(o[3], None)
+                want = fresh_outcome(o[3])
+                if want != ('timeout',) and o[1] != ('timeout',) and o[1] != want:
+                    return True, 'during %s: %s gives %r; freshly constructed parser (new dicts of equal content) gives %r' % (
+                        [show_call(c) for c in calls], show_call(o[3]), o[1], want)
+            return False, 'every call of %s gives what a freshly constructed parser gives' % ([show_call(c) for c in calls],)
         if kind == 'names':
             s = w['s']
             want = tuple(tuple(x) for x in w['expected'])
